@@ -219,7 +219,7 @@ CHECKS.update({
              'of the same data (container x dtype x shape, complete finite table) reach the leaves as one canonical float32 tensor and outputs '
              'have the documented shape/dtype; pre-encoded float labels with a classification metric likewise; representations outside the interface are stated explicitly. Tied to the code by recording every '
              'leaf input for every documented representation and by bit-exact comparison of predict/predict_proba across representations.',
-        note=TB + 'Thin: finite table over a hand-written model (no translator recipe); value conversion is torch\'s; decided mostly by the '
+        note=TB + 'Thin: finite table; the conversion facts (dtype of array features at every site, widening of integer targets, float casts, vector->column on both sides) are regenerated (Gen.Coerce), output formats are hand-written; value conversion is torch\'s; decided mostly by the '
              'correspondence. float64 feature tensors are outside the claimed interface (not converted).',
         technique='Lean 4 decide over an exhaustive finite table + bit-exact differential testing across representations',
         ref='DESIGN.md §6 C20'),
